@@ -129,4 +129,88 @@ inline void run_pairs(vf::Run& r, const std::vector<Call>& calls, long bound2_li
   (void)total_points;
 }
 
+// Cold start: like run_pairs for the pairs of the same group (and every call with itself), bound 1, but every execution —
+// also the solo reference run — happens in a freshly forked child of this process, which never calls the thunks itself:
+// each schedule contains the FIRST calls of its process (lazily built tables, caches keyed by the first caller).
+inline void run_pairs_cold(vf::Run& r, const std::vector<Call>& calls, bool all_pairs) {
+  vp::Arena one(1), two(2);
+  std::vector<std::string> solo(calls.size());
+  std::vector<bool> have(calls.size(), false);
+  auto solo_of = [&](size_t i) -> const std::string* {
+    if (!have[i]) {
+      Cell cell;
+      std::vector<std::function<void()>> jobs = {[&] { cell.out = calls[i].fn(); }};
+      std::vector<vp::Seg> segs = {{0, vp::ALL}};
+      vp::Forked f = vp::run_forked([&] { vp::Result res = one.run(jobs, segs); return std::make_pair(res, cell.out); });
+      if (!f.ok) return nullptr;
+      solo[i] = f.payload;
+      have[i] = true;
+    }
+    return &solo[i];
+  };
+  for (size_t i = 0; i < calls.size(); i++)
+    for (size_t j = i; j < calls.size(); j++) {
+      if (!all_pairs && calls[i].group != calls[j].group) continue;
+      if (!r.take()) continue;
+      r.note("cold concurrent " + calls[i].group + " || " + calls[j].group);
+      if (r.wants_desc()) r.desc("fresh process per schedule: " + calls[i].name + " || " + calls[j].name + ": every schedule with <= 1 preemption");
+      const std::string* si = solo_of(i);
+      const std::string* sj = solo_of(j);
+      if (!si || !sj) {
+        r.fails(calls[si ? j : i].group + ":first-call-crash", "the first call in a fresh process died: " + calls[si ? j : i].name);
+        continue;
+      }
+      Cell cells[2];
+      std::vector<std::function<void()>> jobs = {[&] { cells[0].out = calls[i].fn(); }, [&] { cells[1].out = calls[j].fn(); }};
+      bool died = false;
+      auto exec = [&](const std::vector<vp::Seg>& segs) {
+        fresh(cells[0]);
+        fresh(cells[1]);
+        if (died) return vp::Result();
+        vp::Forked f = vp::run_forked([&] {
+          vp::Result res = two.run(jobs, segs);
+          uint32_t n0 = static_cast<uint32_t>(cells[0].out.size());
+          return std::make_pair(res, std::string(reinterpret_cast<const char*>(&n0), 4) + cells[0].out + cells[1].out);
+        });
+        uint32_t n0 = 0;
+        if (f.ok && f.payload.size() >= 4) memcpy(&n0, f.payload.data(), 4);
+        if (!f.ok || f.payload.size() < 4 + static_cast<size_t>(n0)) {
+          died = true;
+          r.fail(calls[i].group + ":concurrent-first-calls-crash", [&] {
+            return "first calls in a fresh process T0=" + calls[i].name + " T1=" + calls[j].name + " under schedule " + vp::show(segs) + vf::fmt(": the process died (wait status 0x%x)", f.status);
+          });
+          return vp::Result();
+        }
+        cells[0].out = f.payload.substr(4, n0);
+        cells[1].out = f.payload.substr(4 + n0);
+        return f.res;
+      };
+      std::map<std::string, uint64_t> verdicts;
+      auto check = [&](const std::vector<vp::Seg>& segs, const vp::Result&) {
+        std::string v;
+        for (int t = 0; t < 2; t++) {
+          size_t k = t == 0 ? i : j;
+          bool good = cells[t].out == solo[k];
+          v += good ? "=" : "!";
+          if (!good)
+            r.fail(calls[k].group + ":first-calls-result-differs-under-concurrency", [&] {
+              return "concurrent FIRST calls in a fresh process T0=" + calls[i].name + " T1=" + calls[j].name + " under schedule " + vp::show(segs) +
+                     vf::fmt(" (segments count basic-block entries): T%d returned ", t) + vf::show(cells[t].out) + ", alone (also as the first call of a fresh process) the same call returns " + vf::show(solo[k]);
+            });
+        }
+        verdicts[v]++;
+        r.beat();
+      };
+      vp::Stats st;
+      vp::explore(2, 1, exec, check, st);
+      r.states += st.schedules;
+      r.transitions += st.points;
+      r.counters["schedules"] += st.schedules;
+      r.counters["scheduling_points_executed"] += st.points;
+      for (auto& [k, n] : verdicts) r.hist["executions with per-call verdicts " + k] += n;
+      r.nontriv();
+      r.ok("cold pair explored");
+    }
+}
+
 }  // namespace pp
